@@ -1,5 +1,7 @@
 (* C09 — extraction of the executable model and oracle (ExtrOcamlBasic only). *)
 Require Extraction.
 Require Import ExtrOcamlBasic.
-From Verif.C09 Require Import Calendar ModelBase Extracted Model Spec.
-Extraction "model_ml.ml" apply_sorted civil_of add_span sorted_desc mkrow doc_apply adj_apply keys_monotone.
+From Verif.C09 Require Import Calendar ModelBase Extracted Model Spec Groups.
+Extraction "model_ml.ml" apply_sorted civil_of add_span sorted_desc mkrow doc_apply adj_apply keys_monotone
+  forget_groups_exec forget_groups_spec into_forget_ids apply_groups_sorted grouping_wf gkey default_key
+  from_snapshots from_snapshots_forget_ids.
